@@ -334,10 +334,15 @@ func checkWritten(p *Pkg, info implInfo, v reflect.Value, raw []byte, rec *Recor
 		va := refmodel.Validator{Doc: p.Doc, Mode: refmodel.Output}
 		if errs := va.Validate(d.Schema, tree); len(errs) > 0 {
 			kind := "body-schema"
-			if nb, nerr := safeMarshal(NormalizeNil(v.FieldByName("Body")).Interface()); nerr == nil {
-				if nt, derr := refmodel.DecodeJSON(nb); derr == nil && len(va.Validate(d.Schema, nt)) == 0 {
-					kind = "body-nil-collection-encoded-as-null"
+			if k := NilCollectionKind(v.FieldByName("Body"), func(nv reflect.Value) bool {
+				nb, nerr := safeMarshal(nv.Interface())
+				if nerr != nil {
+					return false
 				}
+				nt, derr := refmodel.DecodeJSON(nb)
+				return derr == nil && len(va.Validate(d.Schema, nt)) == 0
+			}); k != "" {
+				kind = "body-" + k
 			}
 			return kind, fmt.Sprintf("body %s does not validate: %s", clip(string(body), 200), strings.Join(errs, "; "))
 		}
